@@ -9,7 +9,7 @@ from simkit import terms as T
 
 ID = "C18"
 LEVEL = "exploration"
-RUNS = {"quick": 10000, "thorough": 300000}
+RUNS = {"quick": 80000, "thorough": 1500000}
 RULE = ("seeded runs in the under-sized regime: max_prefixes 1..3, max_datatypes 1..3 with generalized literals, "
         "max_names 8..26 with nested quoted triples, at least one statement needing more distinct entries of some "
         "enabled table than it has slots; oracle: serialization raises, or the reference decoder reads back exactly "
